@@ -472,6 +472,12 @@ class SpecGen:
         else:
             nargs = r.randint(0 if not root else 1, 3)
             node["args"] = {"abc"[i]: self.pick_any() for i in range(nargs)}
+        if cfg.get("partial_bodies") and not selector and node["args"] and r.random() < 0.3:
+            # a partial body: undefined (raises) when one argument has one particular value
+            by = {n["id"]: n for n in self.nodes}
+            scalar = [a for a, nid in node["args"].items() if by[nid]["k"] == "opt" and by[nid]["key"] not in U.WHOLE_KEYS]
+            if scalar:
+                node["fails_if"] = {"arg": r.choice(scalar), "v": r.choice([0, 1, "a", "b", None, True])}
         if cfg.get("mutating_bodies") and not selector:
             # in-place work on an argument that is the value of a whole-section / whole-list option WITHOUT a default
             # (labrea hands every evaluation its own copy of such a value; a default object would be shared)
